@@ -38,7 +38,7 @@ pub const META_C09: Meta = Meta {
     assumptions: &["nesting depth is bounded (<= 64) to stay clear of native stack exhaustion, as the property's quantifier says"],
     quick_cases: 60000,
     thorough_cases: 1200000,
-    floor: 2000,
+    floor: 100000,
 };
 
 const SOUP: [&str; 78] = [
@@ -294,7 +294,7 @@ pub const META_C12: Meta = Meta {
     assumptions: &["refparse.rs (recogniser written from the grammar as stated in C08/C12) confirms invalidity", "harness tokenizer reflex.rs locates tokens"],
     quick_cases: 8000,
     thorough_cases: 200000,
-    floor: 2000,
+    floor: 400000,
 };
 
 struct Mutant {
@@ -538,7 +538,7 @@ pub const META_C20: Meta = Meta {
     assumptions: &["the harness tokenizer decides what `the same token sequence` means"],
     quick_cases: 40000,
     thorough_cases: 1000000,
-    floor: 500,
+    floor: 10000,
 };
 
 const HAZARD_BASES: [&str; 10] = [
@@ -591,7 +591,7 @@ fn relayout(base: &str, r: &mut Prng) -> Variant {
         // insert blank / comment-only lines before this line (only after the header)
         if after_header && do_insert && r.chance(1, 4) {
             for _ in 0..(1 + r.below(2)) {
-                out.push_str(*r.pick(&["", " \t", "# inserted", "#", "   # é ☃ # x", "\t#loop(i,2)"]));
+                out.push_str(*r.pick(&["", " \t", "# inserted", "#", "   # é ☃ # x", "\t#loop(i,2)", "# previously:\r1 1", "\r", " \r \r"]));
                 out.push_str(if do_crlf { "\r\n" } else { "\n" });
                 vline += 1;
                 edits += 1;
@@ -611,7 +611,7 @@ fn relayout(base: &str, r: &mut Prng) -> Variant {
                 if !first {
                     if do_ws {
                         for _ in 0..(1 + r.below(3)) {
-                            nl.push(*r.pick(&[' ', '\t', ' ']));
+                            nl.push(*r.pick(&[' ', '\t', ' ', '\r']));
                         }
                         edits += 1;
                     } else {
@@ -677,7 +677,7 @@ fn relayout(base: &str, r: &mut Prng) -> Variant {
             }
             nl.push_str(comment);
             if do_comments && comment.is_empty() && r.chance(1, 3) {
-                nl.push_str(*r.pick(&[" # c", "#x", "\t# a # b", " # é☃", " #\r# y", "# end loop"]));
+                nl.push_str(*r.pick(&[" # c", "#x", "\t# a # b", " # é☃", " #\r# y", "# end loop", " # was:\r1 1", "#a\rb", " # \r\r) ;"]));
                 edits += 1;
             }
         }
